@@ -54,14 +54,22 @@ MANIFEST = {
 PROPS = "Props/Properties_C02.v"
 TARGETS = ["Props/Properties_C02.vo", "Opt/Extract.vo"]
 CORPUS_DIR = C.VERIF + "/corpus/C02"
-T_RUN = 60          # seconds per compile / run step
+T_RUN = 40          # seconds per compile / run step
 SLOW = 8.0          # corpus programs slower than this at -Q0 are left out of the sample
+# corpus programs that are not deterministic programs although two -Q0 runs agree
+EXCLUDE = {
+    "bug1022": "prints a variable that is never assigned (`Constructing D(<n>)`): 0 at -Q0, a stale number elsewhere",
+}
 
 
 def generate():
     G = c02_gen.generate()
     G["peep"] = c02_gen.generate_peep()
     G["cfold_guards"] = c02_gen.generate_cfold_guards()
+    # the folder table the Fold theorems are stated over is b-c04's translation of of_cfold.c:
+    # regenerated here too, so that this check alone sees an edit of the folder
+    from props import c04
+    c04.generate()
     return G
 
 
@@ -86,15 +94,23 @@ def lib_args(exe, lib):
 
 
 TRACE_RE = re.compile(r"^(#\d+ .* in <.*> at unit \[.*\]|\.\.\.)\n", re.M)
+FAULT_RE = re.compile(r"^(Compiler bug\.\.\.Bug: .*|.*Program fault \(.*\)\.#\d+ \(Error\) Program fault.*|"
+                      r"#\d+ \((Warning|Error|Fatal Error)\) .*|Warning: hard assertion failed, file .*|"
+                      r"Unhandled Exception: .*|\(Aldor error\) .*)$", re.M)
 
 
 def canon(out):
-    """The interpreter's stack trace on a failed assertion / fault (addresses, frame names, an aid
-    that depends on inlining by design) is not program output."""
-    return TRACE_RE.sub("", out)
+    """What is compared.  Not program output: the interpreter's stack trace on a failed assertion / fault
+    (addresses, frame names: an aid that depends on inlining by design) and WHICH fault message the
+    interpreter or the compiler driver prints when the run dies (`Program fault (...)`, `Compiler bug...`,
+    `#1 (Warning) Removing file`): a run that dies is of class `fail` whatever the message; the text the
+    program printed before is compared."""
+    out = TRACE_RE.sub("", out)
+    out = FAULT_RE.sub("<fault>", out)
+    return re.sub(r"(<fault>\s*)+", "<fault>\n", out)
 
 
-def behave(ctx, prog, cfg, route="interp", keep=False):
+def behave(ctx, prog, cfg, route="interp", keep=False, timeout=None):
     """Compile `prog` under `cfg` and run the result.  prog: dict(lib, path | src).
     Returns dict(cls, out, rc, t): cls in ok | fail | timeout | compile-error."""
     d = ctx.newdir()
@@ -110,17 +126,19 @@ def behave(ctx, prog, cfg, route="interp", keep=False):
             unit = os.path.basename(src)[:-3]      # the saved unit is looked up by its own name
         lib = prog["lib"]
         t0 = time.time()
+        T = timeout or T_RUN
 
         def cerr(rc, out):
             return {"cls": "timeout" if rc == 124 else "compile-error", "rc": rc, "t": time.time() - t0,
-                    "out": canon(out).replace(d + "/", "").replace(os.path.dirname(src) + "/", "")[-3000:]}
+                    "out": canon(out).replace(d + "/", "").replace(os.path.dirname(src) + "/", "")[-3000:],
+                    "raw": TRACE_RE.sub("", out).replace(d + "/", "")[-1500:]}
         if route == "interp":
             rc, out, err = C.run(lib_args(ctx.exe, lib) + list(cfg) + ["-Fao=%s.ao" % unit, src], cwd=d, env=C.aldor_env(),
-                                 timeout=T_RUN, input="")
+                                 timeout=T, input="")
             if rc != 0 or not os.path.exists("%s/%s.ao" % (d, unit)):
                 return cerr(rc, out)
             rc, out, err = C.run(lib_args(ctx.exe, lib) + ["-l" + lib, "-ginterp", unit + ".ao"], cwd=d, env=C.aldor_env(),
-                                 timeout=T_RUN, input="")
+                                 timeout=T, input="")
         else:
             a = lib_args(ctx.exe, lib)
             a += ["-Ccc=%s/aldor/subcmd/unitools/unicl" % C.RB, "-Y%s/aldor/lib/libfoam" % C.RB, "-l" + lib,
@@ -130,7 +148,8 @@ def behave(ctx, prog, cfg, route="interp", keep=False):
                 return cerr(rc, out + err)
             rc, out, err = C.run([d + "/p.exe"], cwd=d, env=C.aldor_env(), timeout=T_RUN, input="")
         cls = "ok" if rc == 0 else ("timeout" if rc == 124 else "fail")
-        return {"cls": cls, "out": canon(out).replace(d + "/", ""), "rc": rc, "t": time.time() - t0}
+        return {"cls": cls, "out": canon(out).replace(d + "/", ""), "rc": rc, "t": time.time() - t0,
+                "raw": TRACE_RE.sub("", out)[-1500:]}
     finally:
         if not keep:
             shutil.rmtree(d, ignore_errors=True)
@@ -302,8 +321,55 @@ def check_opt_model(rep, exe, G, tier):
                       {"args": s, "model": w, "compiler": g,
                        "how_to_replay": "aldor -Nfile=<conf> -WD+optf %s -Fao=t.ao t.as   (t.as: `x: with == add;`)" % " ".join(s)},
                       no_input=True)
+    # ---- the decoder's property, directly on what the compiler prints (no model involved):
+    #      -Q<n> = the column of the (regenerated) table; -Q9 -Qno-<p> = -Q9 with exactly p off;
+    #      -Q0 -Q<p> = -Q0 with exactly p on (inline-all: also inline)
+    flags = [r[0] for r in G["rows"] if r[1] == "OPT_FLAG"]
+    idx = {tuple(s_): i for i, s_ in enumerate(seqs)}
+
+    def tbl_of(seq):
+        i = idx.get(tuple(seq))
+        g = got[i] if i is not None else observe_opts(exe, d, seq)
+        return None if g["rejected"] else dict(g["tbl"])
+    n_direct = 0
+    decode_bad = 0
+    for p in flags:
+        if decode_bad:
+            break           # one minimal replay is enough
+        for lvl, arg, val in ((9, "-Qno-" + p, "0"), (0, "-Q" + p, "1")):
+            a, b = tbl_of(["-Q%d" % lvl]), tbl_of(["-Q%d" % lvl, arg])
+            n_direct += 1
+            if a is None or b is None:
+                want_t = None
+            else:
+                want_t = dict(a)
+                want_t[p] = val
+                if p == "inline-all" and val == "1":
+                    want_t["inline"] = "1"
+            if b != want_t:
+                diff = sorted(k for k in (b or {}) if (want_t or {}).get(k) != b[k])
+                rep.violation("option decoding: `-Q%d %s` does not switch exactly `%s` %s: entries %s differ from `-Q%d` "
+                              "otherwise unchanged" % (lvl, arg, p, "on" if val == "1" else "off", diff, lvl),
+                              {"args": ["-Q%d" % lvl, arg], "printed": b, "expected": want_t,
+                               "how_to_replay": "aldor -Nfile=<conf> -WD+optf -Q%d %s -Fao=t.ao t.as" % (lvl, arg)},
+                              key="decode:-Q%d %s" % (lvl, arg))
+                decode_bad += 1
+                break
+    for n in range(0, 10):
+        b = tbl_of(["-Q%d" % n])
+        want_t = {}
+        for name, kind, var, vals in G["rows"]:
+            v = vals[min(n, len(vals) - 1)]
+            if n > len(vals) - 1 and name == "inline-limit":
+                v = G["qlim"][n - len(vals)]
+            want_t[name] = str(v)
+        n_direct += 1
+        if b != want_t and not decode_bad:
+            decode_bad += 1
+            rep.violation("option decoding: `-Q%d` does not select column min(%d,%d) of optControl[]" % (n, n, len(G["rows"][0][3]) - 1),
+                          {"args": ["-Q%d" % n], "printed": b, "expected": want_t}, key="decode:-Q%d" % n)
     rep.add_cov(option_sequences=len(seqs), option_sequences_accepted=n_ok, option_sequences_rejected=n_rej,
-                option_sequence_mismatches=len(bad))
+                option_sequence_mismatches=len(bad), option_direct_oracle_checks=n_direct)
     return model
 
 
@@ -317,6 +383,8 @@ def corpus_programs():
         if os.path.basename(os.path.dirname(p)) != n:
             continue
         ref = p[:-3] + ".ref"
+        if n in EXCLUDE:
+            continue
         out.append({"name": n, "lib": "axllib", "path": p, "ref": ref if os.path.exists(ref) else None})
     return out
 
@@ -357,21 +425,28 @@ def verdict(prog, base, obs):
 
 def minimise_config(ctx, prog, cfg, base, model, G):
     """Smallest argument list (canonical form -Q<l> [-Qno-all] -Q<p>...) under which the program
-    still behaves differently from -Q0.  Deterministic for a given (program, flag set)."""
+    still behaves differently from -Q0.  Deterministic for a given (program, flag set): level 0 before
+    the level of cfg; a single pass (first in table order) before greedy deletion in table order."""
     st = model.query([cfg])[0]
     if st is None:
         return list(cfg)
     flags = [n for n, k, v, vs in G["rows"] if k == "OPT_FLAG"]
     on = [n for n, v in st["tbl"] if n in flags and v != "0"]
+    tmo = int(min(T_RUN, max(6, 12 * base["t"])))
 
     def differs(c):
-        return not same(behave(ctx, prog, c), base)
+        return not same(behave(ctx, prog, c, timeout=tmo), base)
 
     def form(l, ps):
         return ["-Q%d" % l] + (["-Qno-all"] if l != 0 else []) + ["-Q" + p for p in ps]
     for l in ([0, st["lvl"]] if st["lvl"] != 0 else [0]):
         if not differs(form(l, on)):
             continue
+        with concurrent.futures.ThreadPoolExecutor(C.NCPU) as ex:
+            single = list(ex.map(lambda p: differs(form(l, [p] if p != "inline-all" else ["inline-all"])), on))
+        for p, d in zip(on, single):
+            if d:
+                return form(l, [p])
         cur = list(on)
         for p in list(cur):
             t = [x for x in cur if x != p]
@@ -428,6 +503,7 @@ def load_records():
     return recs
 
 
+CBUG = re.compile(r"Compiler bug\.\.\.Bug: ([^\n]*)")
 SIG = re.compile(r"Compiler bug\.\.\.Bug: (fintStmt|fintEval|BCall): (\w+) .*unimplemented")
 
 
@@ -436,17 +512,21 @@ def signature(prog, base, obs):
     failing side names the call site that gave up, the key is that site: the interpreter's
     `bug("fintStmt: %s ... unimplemented")` (fint.c) on the UNOPTIMISED unit, while the optimised
     unit prints what the oracle expects."""
-    mb, mo = SIG.search(base["out"]), SIG.search(obs["out"])
+    mb, mo = SIG.search(base.get("raw", "")), SIG.search(obs.get("raw", ""))
     if mb and not mo and base["cls"] == "fail" and verdict(prog, base, obs).startswith("the -Q0 side is wrong"):
         return "site:interp-%s-unimplemented:at -Q0" % mb.group(1)
+    if obs["cls"] == "compile-error" and base["cls"] in ("ok", "fail"):
+        m = CBUG.search(obs.get("raw", ""))
+        if m:
+            return "site:compiler-bug:%s" % m.group(1).rstrip(". ")[:80]
     return None
 
 
 def tail(b):
-    return {"cls": b["cls"], "rc": b["rc"], "out": b["out"][-3000:]}
+    return {"cls": b["cls"], "rc": b["rc"], "out": b["out"][-3000:], "raw_tail": b.get("raw", "")[-600:]}
 
 
-def report_diff(rep, ctx, prog, cfg, base, obs, model, G, recs, shrink_budget, reported):
+def report_diff(rep, ctx, prog, cfg, base, obs, model, G, recs, shrink_budget, reported, allow_new=True):
     """A program behaves differently under cfg than under -Q0.  Returns the key."""
     name = prog.get("name")
     for r in recs.get(name, []) if name else []:
@@ -456,10 +536,23 @@ def report_diff(rep, ctx, prog, cfg, base, obs, model, G, recs, shrink_budget, r
         if same(ro, obs) and not same(ro, base):
             return r["key"]         # already reported (or listed as known) under the record's key
     sig = None if name else signature(prog, base, obs)
+    if sig and (sig in reported or rep.finding_key_known(sig)):
+        if sig not in reported:
+            reported.add(sig)
+            rep.violation("", {}, key=sig)          # prints KNOWN-FINDING once
+        return sig
+    if not allow_new:
+        rep.violation("%s behaves differently at `%s` than at -Q0 (not minimised: too many differences in one run)"
+                      % (name or "generated program", cfg_str(cfg)),
+                      {"program": name, "path": prog.get("path"), "lib": prog["lib"], "src": prog.get("src"),
+                       "config": list(cfg), "q0": tail(base), "observed": tail(obs)})
+        return None
     if sig:
-        key, mc, mobs = sig, list(cfg), obs
-        if key in reported:
-            return key
+        key = sig
+        mc = minimise_config(ctx, prog, cfg, base, model, G)
+        mobs = behave(ctx, prog, mc)
+        if same(mobs, base) or signature(prog, base, mobs) != sig:
+            mc, mobs = list(cfg), obs
     else:
         mc = minimise_config(ctx, prog, cfg, base, model, G)
         mobs = behave(ctx, prog, mc)
@@ -494,7 +587,7 @@ def report_diff(rep, ctx, prog, cfg, base, obs, model, G, recs, shrink_budget, r
             % ("corpus program " + name if name else "generated program", cfg_str(mc), base["cls"], mobs["cls"],
                verdict(prog, base, mobs)))
     if sig:
-        what += "; the interpreter gives up on the unoptimised unit: " + SIG.search(base["out"]).group(0)[:120]
+        what += "; the interpreter gives up on the unoptimised unit: " + SIG.search(base.get("raw", "")).group(0)[:120]
     rep.violation(what, {
         "how_to_replay": "./check C02 --replay <this file>   (compile: aldor <base args> <config> -Fao=X.ao X.as ; "
                          "run: aldor <base args> -l<lib> -ginterp X.ao ; compare with config -Q0)",
@@ -507,6 +600,15 @@ def report_diff(rep, ctx, prog, cfg, base, obs, model, G, recs, shrink_budget, r
 
 def replay(path):
     r = json.load(open(path))["replay"]
+    if "args" in r and "printed" in r:          # option decoding
+        exe = C.build_compiler()
+        d = C.scratch("c02replay")
+        open(d + "/t.as", "w").write("x: with == add;\n")
+        g = observe_opts(exe, d, r["args"])
+        now = None if g["rejected"] else dict(g["tbl"])
+        print("aldor -WD+optf %s prints %s" % (" ".join(r["args"]), now))
+        print("expected               %s" % r.get("expected"))
+        return 0 if now == r.get("expected") else 1
     if "config" not in r:
         print("replay: this file names a broken proof / correspondence, not an input")
         return 1
@@ -522,8 +624,8 @@ def replay(path):
         progs.append(("program " + r["path"], {"lib": r["lib"], "path": r["path"].replace("/repo/aldor", C.RB, 1)}))
     bad = 0
     for what, p in progs:
-        a, b = behave(ctx, p, ["-Q0"]), behave(ctx, p, r["config"])
-        print("%s: -Q0 -> %s %r" % (what, a["cls"], a["out"][-300:]))
+        a, b = behave(ctx, p, r.get("base", ["-Q0"])), behave(ctx, p, r["config"])
+        print("%s: %s -> %s %r" % (what, cfg_str(r.get("base", ["-Q0"])), a["cls"], a["out"][-300:]))
         print("%s: %s -> %s %r" % (what, cfg_str(r["config"]), b["cls"], b["out"][-300:]))
         if not same(a, b):
             bad = 1
@@ -564,30 +666,31 @@ def differential(rep, tier, exe, G, model):
 
     def handle(prog, cfg, base, obs):
         stats["differences"] += 1
-        if budget_new[0] <= 0:
-            rep.violation("%s behaves differently at `%s` than at -Q0 (not minimised: too many differences in one run)"
-                          % (prog.get("name") or "generated program", cfg_str(cfg)),
-                          {"program": prog.get("name"), "path": prog.get("path"), "lib": prog["lib"], "src": prog.get("src"),
-                           "config": list(cfg), "q0": tail(base), "observed": tail(obs)})
-            return
         before = len(rep.violations)
-        k = report_diff(rep, ctx, prog, cfg, base, obs, model, G, recs, 60 if tier == "quick" else 240, reported)
+        k = report_diff(rep, ctx, prog, cfg, base, obs, model, G, recs, 60 if tier == "quick" else 240, reported,
+                        allow_new=budget_new[0] > 0)
         seen_keys[k] += 1
         if len(rep.violations) > before:
             budget_new[0] -= 1
-            if prog.get("name"):        # later differences of the same program in this run are attributed to it
+            if prog.get("name") and k:  # later differences of the same program in this run are attributed to it
                 recs[prog["name"]].append({"name": prog["name"], "key": k,
                                            "config": json.load(open(rep.violations[-1]))["replay"]["config"]})
 
     # ---- 1. recorded past failures first (corpus/C02): minimal configuration of each
     cps = {p["name"]: p for p in corpus_programs()}
     rec_list = [r for rs in recs.values() for r in rs]
+    for r in rec_list:          # hand-made records carry their source
+        if r.get("src"):
+            cps[r["name"]] = {"name": r["name"], "lib": r["lib"], "src": r["src"], "ref": None,
+                              "expect_out": r.get("expect_out"), "expect_status": r.get("expect_status")}
     jobs = []
     for r in rec_list:
         p = cps.get(r["name"])
         if p:
-            jobs += [(p, ["-Q0"]), (p, r["config"])]
-    res = run_matrix(ctx, jobs)
+            jobs += [(p, r.get("base", ["-Q0"])), (p, r["config"])]
+    # a recorded hang is reproduced with a shorter limit (it costs the whole limit every run)
+    with concurrent.futures.ThreadPoolExecutor(C.NCPU) as ex:
+        res = list(ex.map(lambda j: behave(ctx, j[0], j[1], timeout=20), jobs))
     n_rec_repro = 0
     for i, r in enumerate([r for r in rec_list if r["name"] in cps]):
         base, obs = res[2 * i], res[2 * i + 1]
@@ -597,10 +700,11 @@ def differential(rep, tier, exe, G, model):
             continue
         n_rec_repro += 1
         p = cps[r["name"]]
-        rep.violation("corpus program %s behaves differently at `%s` than at -Q0 (%s -> %s); %s"
-                      % (r["name"], cfg_str(r["config"]), base["cls"], obs["cls"], verdict(p, base, obs)),
-                      {"how_to_replay": "./check C02 --replay <this file>", "program": r["name"], "path": p["path"],
-                       "lib": p["lib"], "config": r["config"],
+        rep.violation("corpus program %s behaves differently at `%s` than at `%s` (%s -> %s); %s%s"
+                      % (r["name"], cfg_str(r["config"]), cfg_str(r.get("base", ["-Q0"])), base["cls"], obs["cls"],
+                         verdict(p, base, obs), ("; " + r["what"]) if r.get("what") else ""),
+                      {"how_to_replay": "./check C02 --replay <this file>", "program": r["name"], "path": p.get("path"),
+                       "src": p.get("src"), "lib": p["lib"], "config": r["config"], "base": r.get("base", ["-Q0"]),
                        "q0": {"cls": base["cls"], "rc": base["rc"], "out": base["out"][-3000:]},
                        "observed": {"cls": obs["cls"], "rc": obs["rc"], "out": obs["out"][-3000:]},
                        "verdict": verdict(p, base, obs)}, key=r["key"])
@@ -678,7 +782,7 @@ def differential(rep, tier, exe, G, model):
         cfg_kinds[kind] += 1
         if same(b, base) or (p["name"], b["cls"], b["out"]) in done:
             continue
-        if b["cls"] == "timeout" and base["t"] > T_RUN / 20:
+        if b["cls"] == "timeout" and base["t"] > T_RUN / 40:
             continue            # slow program, not a hang
         # confirm once (a loaded machine must not produce a finding)
         b2 = behave(ctx, p, c)
@@ -737,17 +841,16 @@ SWAP_KEYS = {"SIntPlus": "peep:additive-operand-order", "SIntMinus": "peep:addit
 
 
 def segments(out):
-    """output of a generated builtin-level program, split per call t<k>(...)"""
-    segs, cur = [], []
+    """output of a generated builtin-level program, split per call: `stdout << "t<k> " << t<k>(...)` prints
+    the tag first, then whatever the call prints, then the value"""
+    segs = []
     for line in out.splitlines():
-        cur.append(line)
         m = re.match(r"(t\d+) ", line)
-        if m and not line.startswith("The file"):
-            segs.append((m.group(1), "\n".join(cur)))
-            cur = []
-    if cur:
-        segs.append(("tail", "\n".join(cur)))
-    return segs
+        if m or not segs:
+            segs.append([m.group(1) if m else "head", line])
+        else:
+            segs[-1][1] += "\n" + line
+    return [(a, b) for a, b in segs]
 
 
 def check_local(rep, exe, model, tier):
@@ -756,6 +859,10 @@ def check_local(rep, exe, model, tier):
     rc, out, err = C.run([model.exe], input="fragops\nfxops\n", timeout=60)
     frag_ops, fx_ops = [set(l.split()) for l in out.splitlines()[:2]]
     states = model.query(LOCAL_CFGS)
+    if any(st is None for st in states):        # the option model rejects them (already reported): ask the compiler
+        fb = FallbackModel(None)
+        states = [st if st is not None else fo for st, fo in zip(states, fb.query(LOCAL_CFGS))]
+        states = [st if st is not None else {"tbl": [("cfold", "0"), ("ffold", "0")], "trace": []} for st in states]
     nprog = 24 if tier == "quick" else 240
     progs = [LOC.gen_program(rng, 8, rng.choice([2, 3, 3, 4])) for _ in range(nprog)]
     base = C.scratch("c02loc")
@@ -846,13 +953,25 @@ def check_local(rep, exe, model, tier):
                               key=key)
         else:
             h = hashlib.sha1(fn_src.encode()).hexdigest()[:8]
+            if h in reported:
+                continue
+            reported.add(h)
             key = "local:%s:%s" % (h, cfg_str(x["config"]))
-            if key not in reported:
-                reported.add(key)
-                rep.violation("a generated builtin-level function prints differently at `%s` than at -Q0 (no operand exchange "
-                              "flagged by the model)" % cfg_str(x["config"]),
-                              {"lib": "aldor", "src": src, "config": x["config"], "function": fn_src, "q0_lines": x["q0"],
-                               "observed_lines": x["observed"]}, key=key)
+            # minimal program: the header, the two printing functions, this function and its calls
+            fn = x["function"]
+            keep = [l for l in src.splitlines()
+                    if not re.match(r"t\d+\(", l) and not re.match(r'stdout << "t\d+ "', l)]
+            keep += [l for l in src.splitlines() if l.startswith(fn + "(") or l.startswith('stdout << "%s "' % fn)]
+            small = "\n".join(keep) + "\n"
+            ctx = Ctx(exe, C.scratch("c02locmin"))
+            a = behave(ctx, {"lib": "aldor", "src": small}, ["-Q0"])
+            b = behave(ctx, {"lib": "aldor", "src": small}, x["config"])
+            rep.violation("a generated builtin-level function prints differently at `%s` than at -Q0 (no operand exchange "
+                          "flagged by the model)" % cfg_str(x["config"]),
+                          {"how_to_replay": "./check C02 --replay <this file>", "lib": "aldor", "src": src, "config": x["config"],
+                           "function": fn_src, "q0_lines": x["q0"], "observed_lines": x["observed"],
+                           "minimal_program": {"src": small, "still_differs": not same(a, b),
+                                               "q0": a["out"][-400:], "observed": b["out"][-400:]}}, key=key)
     if mism:
         i, x = mism[0]
         rep.violation("correspondence Fold/Peep model vs the isolated pass no longer checks: function %s at `%s` (%d functions differ)"
@@ -911,8 +1030,9 @@ class FallbackModel:
         out = []
         for s in seqs:
             g = observe_opts(self.exe, self.d, s)
-            out.append(None if g["rejected"] else {"lvl": int(s[0][2:]) if re.fullmatch(r"-Q\d", s[0]) else 1,
-                                                   "tbl": g["tbl"], "trace": g["trace"]})
+            out.append(None if g["rejected"] else {"lvl": int(s[0][2:]) if s and re.fullmatch(r"-Q\d", s[0]) else 1,
+                                                   "tbl": g["tbl"],
+                                                   "trace": [x for x in g["trace"] if x != "Starting expr inline..."]})
         return out
 
 
@@ -934,7 +1054,13 @@ def discover(names=None):
     print("deterministic at -Q0: %d of %d" % (len(eprogs), len(cand)))
     cs = [c for c in CF["levels"] if c != ["-Q0"]] + CF["singles"]
     jobs = [(p, c, b) for p, b in eprogs for c in cs]
-    res = run_matrix(ctx, [(p, c) for p, c, b in jobs])
+    cache = os.environ.get("C02_DISC_CACHE")
+    if cache and os.path.exists(cache):
+        res = json.load(open(cache))
+    else:
+        res = run_matrix(ctx, [(p, c) for p, c, b in jobs])
+        if cache:
+            json.dump(res, open(cache, "w"))
     groups = collections.OrderedDict()
     for (p, c, base), b in zip(jobs, res):
         if same(b, base):
@@ -942,6 +1068,7 @@ def discover(names=None):
         if b["cls"] == "timeout" and base["t"] > T_RUN / 20:
             continue
         groups.setdefault((p["name"], b["cls"], b["out"]), (p, c, base, b))
+    print("differing (program, behaviour) groups:", len(groups))
     os.makedirs(CORPUS_DIR, exist_ok=True)
     written = collections.Counter()
     byprog = collections.defaultdict(list)
